@@ -1,0 +1,276 @@
+//go:build verif
+
+package goja
+
+// White-box accessors for verification property C18 (ordered map behind Map, Set and the
+// symbol-property table).  Add-only; compiled only with -tags verif.
+
+import (
+	"hash/maphash"
+	"sort"
+	"strconv"
+	"strings"
+)
+
+// VerifC18Map is a handle on a real orderedMap (map.go) plus a registry that numbers every
+// mapEntry ever seen in allocation order (ids are what the Lean mechanism model uses as heap indices).
+type VerifC18Map struct {
+	get func() *orderedMap // the structure may be created lazily (symValues)
+	reg []*mapEntry
+	ids map[*mapEntry]int
+}
+
+// VerifC18NewRaw creates a fresh raw orderedMap (as Map/Set do: with a maphash.Hash).
+func VerifC18NewRaw() *VerifC18Map {
+	m := newOrderedMap(&maphash.Hash{})
+	return &VerifC18Map{get: func() *orderedMap { return m }, ids: map[*mapEntry]int{}}
+}
+
+// VerifC18OfObject returns a handle on the orderedMap behind a Map, a Set, or (for any other
+// object that embeds baseObject directly) the symbol-property table symValues. nil if unsupported.
+func VerifC18OfObject(o *Object) *VerifC18Map {
+	switch s := o.self.(type) {
+	case *mapObject:
+		return &VerifC18Map{get: func() *orderedMap { return s.m }, ids: map[*mapEntry]int{}}
+	case *setObject:
+		return &VerifC18Map{get: func() *orderedMap { return s.m }, ids: map[*mapEntry]int{}}
+	case *baseObject:
+		return &VerifC18Map{get: func() *orderedMap { return s.symValues }, ids: map[*mapEntry]int{}}
+	}
+	return nil
+}
+
+func (w *VerifC18Map) Set(k, v Value) {
+	w.get().set(k, v)
+}
+
+func (w *VerifC18Map) Get(k Value) Value {
+	if m := w.get(); m != nil {
+		return m.get(k)
+	}
+	return nil
+}
+
+func (w *VerifC18Map) Remove(k Value) bool {
+	if m := w.get(); m != nil {
+		return m.remove(k)
+	}
+	return false
+}
+
+func (w *VerifC18Map) Has(k Value) bool {
+	if m := w.get(); m != nil {
+		return m.has(k)
+	}
+	return false
+}
+
+func (w *VerifC18Map) Clear() {
+	if m := w.get(); m != nil {
+		m.clear()
+	}
+}
+
+func (w *VerifC18Map) Size() int {
+	if m := w.get(); m != nil {
+		return m.size
+	}
+	return 0
+}
+
+// VerifC18Iter wraps a real orderedMapIter. If the underlying structure does not exist yet
+// (symValues == nil) creation is deferred to the first Next, which is unobservable because
+// newIter only records the map.
+type VerifC18Iter struct {
+	w      *VerifC18Map
+	it     *orderedMapIter
+	closed bool
+}
+
+func (w *VerifC18Map) NewIter() *VerifC18Iter {
+	r := &VerifC18Iter{w: w}
+	if m := w.get(); m != nil {
+		r.it = m.newIter()
+	}
+	return r
+}
+
+// Next returns the next live entry (key, value, true) or (nil, nil, false) when exhausted/closed.
+func (i *VerifC18Iter) Next() (Value, Value, bool) {
+	if i.closed {
+		return nil, nil, false
+	}
+	if i.it == nil {
+		m := i.w.get()
+		if m == nil {
+			// no table yet: an iterator over an empty table terminates (and stays terminated)
+			i.closed = true
+			return nil, nil, false
+		}
+		i.it = m.newIter()
+	}
+	e := i.it.next()
+	if e == nil {
+		return nil, nil, false
+	}
+	return e.key, e.value, true
+}
+
+func (i *VerifC18Iter) Close() {
+	i.closed = true
+	if i.it != nil {
+		i.it.close()
+	}
+}
+
+// State of the iterator as the mechanism sees it: closed flag and id of cur ("-" if nil, "?" if unregistered).
+func (i *VerifC18Iter) State() string {
+	if i.it == nil {
+		if i.closed {
+			return "closed"
+		}
+		return "open:-"
+	}
+	if i.it.m == nil {
+		return "closed"
+	}
+	return "open:" + i.w.idOf(i.it.cur)
+}
+
+func (w *VerifC18Map) idOf(e *mapEntry) string {
+	if e == nil {
+		return "-"
+	}
+	if id, ok := w.ids[e]; ok {
+		return strconv.Itoa(id)
+	}
+	return "?"
+}
+
+func (w *VerifC18Map) register(e *mapEntry) {
+	if e == nil {
+		return
+	}
+	if _, ok := w.ids[e]; !ok {
+		w.ids[e] = len(w.reg)
+		w.reg = append(w.reg, e)
+	}
+}
+
+// Dump registers entries not seen before (walking iterFirst.. via iterNext, then bucket chains, so
+// that first-seen order equals allocation order when Dump is called after every mutation) and prints
+//
+//	sz=<size>,F=<id|->,L=<id|->,T=<bucket head ids ascending, '.'-separated>,E=<e0>_<e1>_...
+//
+// with e = <key|x>~<iterPrev>~<iterNext>~<hNext>; key rendered by canon, x = key == nil.
+func (w *VerifC18Map) Dump(canon func(Value) string) string {
+	m := w.get()
+	if m == nil {
+		return "sz=0,F=-,L=-,T=,E="
+	}
+	steps := 0
+	for e := m.iterFirst; e != nil && steps < 100000; e = e.iterNext {
+		w.register(e)
+		steps++
+	}
+	w.register(m.iterLast)
+	heads := make([]*mapEntry, 0, len(m.hashTable))
+	for _, e := range m.hashTable {
+		heads = append(heads, e)
+	}
+	for _, h := range heads {
+		steps = 0
+		for e := h; e != nil && steps < 100000; e = e.hNext {
+			if _, ok := w.ids[e]; !ok && e.key != nil {
+				// a live entry reachable only through a bucket: register late (will show as a discrepancy)
+				w.register(e)
+			}
+			steps++
+		}
+	}
+	var hs []string
+	var hids []int
+	unk := 0
+	for _, h := range heads {
+		if id, ok := w.ids[h]; ok {
+			hids = append(hids, id)
+		} else {
+			unk++
+		}
+	}
+	sort.Ints(hids)
+	for _, id := range hids {
+		hs = append(hs, strconv.Itoa(id))
+	}
+	for i := 0; i < unk; i++ {
+		hs = append(hs, "?")
+	}
+	var b strings.Builder
+	b.WriteString("sz=" + strconv.Itoa(m.size))
+	b.WriteString(",F=" + w.idOf(m.iterFirst))
+	b.WriteString(",L=" + w.idOf(m.iterLast))
+	b.WriteString(",T=" + strings.Join(hs, "."))
+	b.WriteString(",E=")
+	for i, e := range w.reg {
+		if i > 0 {
+			b.WriteByte('_')
+		}
+		if e.key == nil {
+			b.WriteByte('x')
+		} else {
+			b.WriteString(canon(e.key))
+		}
+		b.WriteString("~" + w.idOf(e.iterPrev) + "~" + w.idOf(e.iterNext) + "~" + w.idOf(e.hNext))
+	}
+	return b.String()
+}
+
+// verifC18Key is a synthetic key with a caller-chosen hash and equality class, used to drive the raw
+// structure through bucket collisions that real hashes (random maphash seeds, pointers) never produce.
+type verifC18Key struct {
+	Value
+	cls int
+	h   uint64
+}
+
+func (k *verifC18Key) hash(*maphash.Hash) uint64 { return k.h }
+
+func (k *verifC18Key) SameAs(other Value) bool {
+	o, ok := other.(*verifC18Key)
+	return ok && o.cls == k.cls
+}
+
+// VerifC18SynKey returns a synthetic key of equality class cls whose hash is h.
+func VerifC18SynKey(cls int, h uint64) Value {
+	return &verifC18Key{Value: valueInt(int64(cls)), cls: cls, h: h}
+}
+
+// VerifC18SynClass returns (cls, true) if v is a synthetic key.
+func VerifC18SynClass(v Value) (int, bool) {
+	if k, ok := v.(*verifC18Key); ok {
+		return k.cls, true
+	}
+	return 0, false
+}
+
+// VerifC18NegZero is the canonical -0 value (the one lookup/set normalise to +0).
+func VerifC18NegZero() Value { return _negativeZero }
+
+// VerifC18PosZero is integer +0.
+func VerifC18PosZero() Value { return intToValue(0) }
+
+// VerifC18Hash is the hash the runtime's Map/Set would use for v (after the -0 normalisation of lookup).
+func VerifC18Hash(r *Runtime, v Value) uint64 {
+	if v == _negativeZero {
+		v = intToValue(0)
+	}
+	return v.hash(r.getHash())
+}
+
+// VerifC18SameAs is the equality lookup uses between a stored key a and a probe b.
+func VerifC18SameAs(a, b Value) bool {
+	if b == _negativeZero {
+		b = intToValue(0)
+	}
+	return a.SameAs(b)
+}
